@@ -24,8 +24,10 @@ CONFIG = {
                   "(std FromStr, num-bigint, bigdecimal, chrono) into lean/SophiaModel/Model/OrderBy.lean, checked per case by the "
                   "differential; a two-element sort_unstable_by swaps iff is_less(second, first); the sort algorithm itself enters "
                   "the theorems only through its contract. Model scope: ORDER BY keys are variables; decimals written with a "
-                  "positive exponent next to floats, dateTime years beyond +-262000 and non-ASCII dateTime lexical forms are skipped.",
-    "tables": [],
+                  "positive exponent next to floats and dateTime years beyond +-262000 are skipped. How XsdDateTime::new treats an "
+                  "i32-overflowing year and which digit class its regex uses is regenerated from the source "
+                  "(tools/extractors/c14.py -> Gen/DateTimeFlags.lean, fail-closed).",
+    "tables": ["datetime_flags"],
     "lean_targets": ["SophiaProofs.Props.C14", "SophiaProofs.Audit.C14"],
     "theorems": ["order_not_transitive", "order_not_transitive_welltyped", "numeric_ties_not_transitive",
                  "not_order_total_preorder", "order_total_preorder_partial", "respects_lt", "kind_order", "desc_reverse",
@@ -118,26 +120,3 @@ def c14_sort_output_misordered(failure):
         return False
     c = _counts(failure)
     return bool(c) and c["other"] == 0 and (c["mixed"] + c["numtie"]) > 0
-
-
-_DT = "http://www.w3.org/2001/XMLSchema#dateTime"
-
-
-@predicate
-def c14_datetime_unwrap_panic(failure):
-    """an xsd:dateTime literal whose year does not fit an i32, or with a non-ASCII decimal digit (`\\d` in the
-    regex is Unicode-aware), makes XsdDateTime::new unwrap a ParseIntError"""
-    if failure.get("field") != "FAIL.panic":
-        return False
-    msg = unhex(failure.get("detail", ""))
-    if "ParseIntError" not in msg:
-        return False
-    for k, lex, dt in _terms(failure["request"]):
-        if k != "l" or dt != _DT:
-            continue
-        m = re.match(r"^-?(\d{4,})-", lex)
-        if m and m.group(1).isascii() and int(m.group(1)) > 2147483647:
-            return True
-        if any((not ch.isascii()) and ch.isdigit() for ch in lex):
-            return True
-    return False
